@@ -322,6 +322,7 @@ class ObjEval:
         self._defaults: Dict[tuple, Any] = {}
         self._memo_results: Dict[tuple, Any] = {}
         self.initsub_depth = 0
+        self.max_steps = 2_000_000
         self.module_specials: Dict[tuple, Any] = {}  # (module name, global name) -> provider(): registries filled while classes are created
         self.external_base_methods: Dict[str, Any] = {}  # method name -> factory(receiver) for methods of external base classes
         self.forced_attrs: Dict[tuple, Any] = {}  # (class qualname, attr) -> provider(instance): the abstract world's answer, whatever the instance stores
@@ -712,7 +713,7 @@ class OEvaluator(Evaluator):
         if isinstance(e, _Lit):
             return e.v
         self.oe.steps += 1
-        if self.oe.steps > 2_000_000:
+        if self.oe.steps > self.oe.max_steps:
             raise Unsupported("too many interpretation steps")
         if isinstance(e, ast.Name) and e.id not in self.env and e.id not in ("True", "False", "None", "NotImplemented"):
             return self.free_name(e.id)
